@@ -6,6 +6,7 @@
 import XotModel.Driver.Entity
 import XotModel.Driver.Tree
 import XotModel.Driver.Forest
+import XotModel.Driver.Ffixed
 
 open XotModel.Driver
 
@@ -22,6 +23,7 @@ structure MState where
 
 def dispatchAll (st : MState) (line : String) : MState × String :=
   match words line with
+  | "forest" :: "fixed" :: rest => (match handleFfixed st.forest rest with | some (fs, resp) => ({ st with forest := fs }, resp) | none => (st, "bad-request"))
   | "forest" :: rest =>
     (match handleForest st.forest rest with
      | some (fs, resp) => ({ st with forest := fs }, resp)
